@@ -104,6 +104,24 @@ try:
                      got={name: getattr(conf, name), "retries": conf.retries}, want={name: not default, "retries": 4})
             if name == "offline" and (not conf.no_upload or conf.auto_update):
                 fail(violation="offline (from the file) without its implied settings", spelling=sp, no_upload=conf.no_upload, auto_update=conf.auto_update)
+    # a configuration file that uses the legacy section name (still read by the loader): its options, typed ones included, take effect
+    with open(CONF, "w") as f:
+        f.write("[redhat-access-insights]\nretries=4\nobfuscate=True\nhttp_timeout=7.5\nbase_url=legacy.example.org/r\n")
+    for k in [k for k in os.environ if k.startswith("INSIGHTS_")]:
+        del os.environ[k]
+    sys.argv = ["insights-client", "--conf", CONF]
+    try:
+        try:
+            conf = InsightsConfig(_print_errors=False).load_all()
+        except Exception as ex:
+            fail(violation="loading a configuration file with the legacy section name fails with an exception other than the documented rejection",
+                 file="[redhat-access-insights] retries=4 obfuscate=True http_timeout=7.5 base_url=legacy.example.org/r", exc=repr(ex))
+    finally:
+        sys.argv = list(SAVED_ARGV)
+    n += 1
+    if (conf.retries, conf.obfuscate, conf.http_timeout, conf.base_url) != (4, True, 7.5, "legacy.example.org/r"):
+        fail(violation="options do not take the values of a configuration file that uses the legacy section name",
+             got=[conf.retries, conf.obfuscate, conf.http_timeout, conf.base_url])
     # ---- (2) consistency
     REQUESTS = ["--status", "--test-connection", "--checkin", "--unregister", "--diagnosis"]
     combos = [[]] + [[r] for r in REQUESTS] + [["--output-dir", os.path.join(tmp, "out")], ["--output-file", os.path.join(tmp, "out.tar.gz")]]
